@@ -31,8 +31,8 @@ PROPS["C14"] = {
     "level": "exploration",
     "fuzz": [('FuzzC14', 120), ('FuzzC14R', 90)],
     "runs": [
-        run("TestC14Direct", (60000, 4), (1500000, 16)),
-        run("TestC14Rule", (4000, 4), (150000, 16)),
+        run("TestC14Direct", (100000, 8), (1500000, 16)),
+        run("TestC14Rule", (6000, 8), (150000, 16)),
     ],
     "rule": "cases = (registered transformation name scraped from the tree, byte string of length 0..64 built from "
             "escape-alphabet fragments, truncated escapes, runs and raw bytes) for direct calls, and (list of 1..4 "
@@ -47,7 +47,7 @@ PROPS["C14"] = {
 
 PROPS["C08"] = {
     "level": "exploration",
-    "runs": [run("TestC08", (8000, 4), (250000, 16))],
+    "runs": [run("TestC08", (12000, 8), (250000, 16))],
     "rule": "cases = rule sets of 4..12 items over all five phases (tracer SecActions, conditional skip:N / skipAfter:M with M present "
             "after, before or absent / allow, allow:phase, allow:request / chains of 1..3 links carrying a flow or disruptive action on the "
             "starter / deny rules, markers) x a request that switches each condition on or off x engine On|DetectionOnly, compared with "
@@ -65,7 +65,7 @@ PROPS["C08"] = {
 
 PROPS["C02"] = {
     "level": "exploration",
-    "runs": [run("TestC02", (6000, 4), (200000, 16))],
+    "runs": [run("TestC02", (9000, 8), (200000, 16))],
     "rule": "cases = rule sets with 0..4 tracer / disruptive rules per phase (deny, drop, redirect, block with and without SecDefaultAction, "
             "several disruptive actions in one rule, optional ctl:ruleEngine switch as last rule of a phase) x engine On|DetectionOnly|Off x "
             "request switching conditions x API-call script (canonical, or mutated by repeating / skipping / swapping calls and extra body "
@@ -82,7 +82,7 @@ PROPS["C02"] = {
 
 PROPS["C09"] = {
     "level": "exploration",
-    "runs": [run("TestC09", (8000, 4), (250000, 16))],
+    "runs": [run("TestC09", (12000, 8), (250000, 16))],
     "rule": "cases = scoring rule sets (2..7 rules in any phase; targets matching 0..k request values; setvar +N/-N/+%{tx.w}, assignments, "
             "deletions, flag form, keys built from %{rule.id} and %{MATCHED_VAR_NAME}; severity; msg/logdata macros; chains; multiMatch; "
             "threshold rules on TX:score / TX:acc) x requests with repeated and case-variant argument names; oracle = reference evaluator "
@@ -98,7 +98,7 @@ PROPS["C09"] = {
 
 PROPS["C01"] = {
     "level": "exploration",
-    "runs": [run("TestC01", (6000, 4), (200000, 16))],
+    "runs": [run("TestC01", (9000, 8), (200000, 16))],
     "rule": "cases = 1..6 rules in any phase over 17 request/response variables; 1..3 targets each with no selector, a string key (case "
             "varied) or a regex key; '&' counts; 0..2 exclusions (!VAR, !VAR:key, !VAR:/re/); 0..3 transformations; 15 operators with "
             "arguments cut from request values; '!' negation; chains of 1..3; multiMatch x requests with duplicate, case-variant and empty "
@@ -116,7 +116,7 @@ PROPS["C01"] = {
 PROPS["C15"] = {
     "level": "exploration",
     "fuzz": [('FuzzC15', 180)],
-    "runs": [run("TestC15Direct", (60000, 4), (1500000, 16)), run("TestC15Rule", (4000, 4), (100000, 16))],
+    "runs": [run("TestC15Direct", (100000, 8), (1500000, 16)), run("TestC15Rule", (6000, 8), (100000, 16))],
     "rule": "cases = (operator, argument, input) generated together within one edit of the decision boundary: string operators with literal "
             "and %{tx.k} arguments, numeric comparisons of neighbouring integers, @pm / @pmFromDataset / @pmFromFile phrase lists (case mixed, "
             "prefixes of one another, phrase at the very end, input shorter than the shortest phrase, many hits), @ipMatch CIDR lists with "
@@ -135,7 +135,7 @@ PROPS["C15"] = {
 PROPS["C11"] = {
     "level": "exploration",
     "fuzz": [('FuzzC11', 180)],
-    "runs": [run("TestC11", (15000, 6), (400000, 16)), run("TestC11E2E", (1500, 2), (40000, 16))],
+    "runs": [run("TestC11", (25000, 8), (400000, 16)), run("TestC11E2E", (2000, 4), (40000, 16))],
     "rule": "cases = (pattern, 3..8 inputs): patterns are generated from a grammar (ASCII / non-ASCII / \\x{..} literals, classes, "
             "alternations with shared prefixes, optional and repeated groups, captures, ^ $ \\A \\z \\b, global and scoped (?i)) or drawn "
             "from the @rx patterns of the bundled OWASP CRS (compiled rules read reflectively); inputs are sampled by walking the pattern's "
@@ -154,7 +154,7 @@ PROPS["C11"] = {
 PROPS["C10"] = {
     "level": "exploration",
     "fuzz": [('FuzzC10', 120)],
-    "runs": [run("TestC10Tx", (5000, 4), (150000, 16)), run("TestC10Buffer", (20000, 2), (500000, 8))],
+    "runs": [run("TestC10Tx", (8000, 8), (150000, 16)), run("TestC10Buffer", (30000, 4), (500000, 8))],
     "rule": "transaction cases = (request|response side, limit 1..64, in-memory limit 1..limit, Reject|ProcessPartial, byte string whose length "
             "is biased to every threshold +-1, a partition into <=6 chunks, per chunk the entry point: slice write, reader with Len(), plain "
             "reader), each run with the in-memory limit = limit, the drawn value, and 1 (spill) and compared with a reference model of the "
@@ -172,7 +172,7 @@ PROPS["C10"] = {
 PROPS["C07"] = {
     "level": "exploration",
     "fuzz": [('FuzzC07', 240)],
-    "runs": [run("TestC07", (8000, 6), (300000, 16))],
+    "runs": [run("TestC07", (12000, 10), (300000, 16))],
     "rule": "cases = configurations of 1..10 lines assembled from the complete vocabulary scraped from the working tree (every directive with "
             "plausible and hostile arguments; SecRule with every variable (key, regex key, count, negation), every operator (valid, empty "
             "and malformed arguments, macros naming any variable) and every action in every documented spelling (setvar flag/delete/"
@@ -199,7 +199,7 @@ PROPS["C07"] = {
 
 PROPS["C04"] = {
     "level": "exploration",
-    "runs": [run("TestC04", (1500, 6), (50000, 16))],
+    "runs": [run("TestC04", (2000, 10), (50000, 16))],
     "rule": "cases = rule sets and requests from the C01 (matching) and C09 (scoring) generators, biased to many values under few names, "
             "several rules sharing transformation prefixes over one collection, rules comparing against %{COLLECTION.key} (the first value "
             "stored under a repeated or case-variant name), optional SecArgumentsLimit below the number of arguments; "
@@ -215,7 +215,7 @@ PROPS["C04"] = {
 
 PROPS["C12"] = {
     "level": "exploration",
-    "runs": [run("TestC12", (3000, 6), (100000, 16))],
+    "runs": [run("TestC12", (5000, 8), (100000, 16))],
     "rule": "cases = 2..6 rules (plus chain links) in one phase whose transformation lists are built from 1..3 shared prefixes drawn from "
             "the full transformation vocabulary, over overlapping targets (ARGS_GET next to ARGS_GET:a, ARGS next to ARGS|!ARGS:b, regex keys, "
             "counts, the same variable twice) and over targets whose content changes during the phase (MATCHED_VAR*, MATCHED_VARS, RULE:id, "
@@ -233,7 +233,7 @@ PROPS["C12"] = {
 
 PROPS["C05"] = {
     "level": "exploration",
-    "runs": [run("TestC05", (1500, 6), (60000, 16))],
+    "runs": [run("TestC05", (2000, 10), (60000, 16))],
     "rule": "cases = (configuration with tracers, state readers and 2..6 conditional state-leaving rules: every ctl option, skip / skipAfter "
             "(marker present or absent) / allow scopes, deny / drop / redirect, capture, setvar, severity, log flags), 1..3 predecessor "
             "transactions (bodies in memory, spilled to disk, JSON valid and broken, multipart upload; response bodies valid and broken; "
@@ -253,7 +253,7 @@ PROPS["C05"] = {
 
 PROPS["C17"] = {
     "level": "exploration",
-    "runs": [run("TestC17", (4000, 6), (120000, 16))],
+    "runs": [run("TestC17", (6000, 8), (120000, 16))],
     "rule": "cases = base rule sets of 3..7 rules (ids, up to two tags, messages, chains, exclusions, deny rules) + one directive: "
             "SecRuleRemoveById (ids, several ids, ranges) / ByTag / ByMsg, SecRuleUpdateTargetById (single, several, range; positive and "
             "negative targets; string and regex keys) / ByTag, SecRuleUpdateActionById (single, several, range; disruptive, status, "
@@ -273,7 +273,7 @@ PROPS["C17"] = {
 
 PROPS["C13"] = {
     "level": "exploration",
-    "runs": [run("TestC13", (3000, 3), (60000, 8), pair_variant="nomemo", pair_env="VERIF_C13_OUT")],
+    "runs": [run("TestC13", (4000, 4), (60000, 8), pair_variant="nomemo", pair_env="VERIF_C13_OUT")],
     "rule": "cases = histories of 4..10 operations {build WAF from configuration i, close WAF j, probe WAF j} over 2..4 configurations that "
             "reuse 1..2 strings in different roles (@pm S, regex key ARGS:/S/, ctl:...;ARGS:/S/, @restpath S, @validateNid us S, @rx S normal "
             "and binary, SecAuditLogRelevantStatus S, @pmFromDataset with different content under one name, @pmFromFile resolved against "
@@ -291,7 +291,7 @@ PROPS["C13"] = {
 PROPS["C03"] = {
     "level": "exploration",
     "fuzz": [('FuzzC03', 150)],
-    "runs": [run("TestC03", (6000, 6), (200000, 16))],
+    "runs": [run("TestC03", (8000, 8), (200000, 16))],
     "rule": "cases = lists of 0..8 (name, value) byte strings (repeated and case-variant names, empty names and values, reserved characters, "
             "percent signs, non-UTF-8 bytes) placed in one carrier: query string and urlencoded body (hand-written encoder with a generated "
             "per-byte choice of raw / %XX / %xx / '+'), header set, one or several Cookie headers, multipart body with 0..3 files, JSON "
@@ -313,7 +313,7 @@ PROPS["C03"] = {
 PROPS["C16"] = {
     "level": "exploration",
     "fuzz": [('FuzzC16', 180)],
-    "runs": [run("TestC16", (2500, 6), (100000, 16))],
+    "runs": [run("TestC16", (3000, 10), (100000, 16))],
     "rule": "cases = 1..3 structured rule descriptions (1..3 targets over 15 variables with plain keys containing : , / = \" . and regex keys "
             "containing | , : ' \\/, counts, exclusions; 7 operators with arguments containing quotes, backslashes, commas, colons, pipes, "
             "non-UTF-8 bytes; up to 5 actions among msg / tag / logdata / setvar / t / severity / status / rev / ver / ctl / maturity / flags "
@@ -336,7 +336,7 @@ PROPS["C16"] = {
 
 PROPS["C18"] = {
     "level": "exploration",
-    "runs": [run("TestC18", (5000, 6), (150000, 16))],
+    "runs": [run("TestC18", (8000, 8), (150000, 16))],
     "rule": "cases = (deny rule in phase 1-4 or none, deny status, request / response body access, body limits 4..40 with both limit actions) x "
             "(request with or without the triggering header, body length below / at / above the limit, known or unknown length) x handler "
             "script (reads the body fully / partly / not at all; optional WriteHeader with 200/201/404/500/204/304; content type in or out of "
@@ -359,7 +359,7 @@ PROPS["C18"] = {
 
 PROPS["C19"] = {
     "level": "exploration",
-    "runs": [run("TestC19", (6000, 5), (200000, 14)), run("TestC19Conc", (60, 2), (1500, 4)),
+    "runs": [run("TestC19", (8000, 8), (200000, 14)), run("TestC19Conc", (60, 2), (1500, 4)),
              run("TestC19Conc", (30, 2), (1500, 4), variant="race", env=RACE_ENV)],
     "rule": "cases = audit engine On|Off|RelevantOnly (configured, optionally switched by ctl:auditEngine) x relevant-status pattern x any "
             "valid part subset (optionally changed by ctl:auditLogParts +X / -X / absolute) x format JSON|Native|JsonLegacy|OCSF x 1..5 rules "
@@ -406,7 +406,7 @@ PROPS["C06"] = {
 
 PROPS["C20"] = {
     "level": "fault_enumeration",
-    "runs": [run("TestC20Early", (2500, 3), (60000, 8)), run("TestC20Faults", (3, 3), (12, 8), shrinktime="1s")],
+    "runs": [run("TestC20Early", (3000, 6), (60000, 8)), run("TestC20Faults", (3, 3), (12, 8), shrinktime="1s")],
     "cap_s": {"quick": 900, "thorough": 7200},
     "rule": "scenarios = body none / in memory / spilled to disk / larger than a small body limit and written in pieces (one of them ending "
             "exactly at the limit in half of the cases; Reject and ProcessPartial; the excess must show as an interruption, an error "
